@@ -1,5 +1,7 @@
 import WfProofs.PolicyLemmas
 import WfProofs.RunnerTerminal
+import WfProofs.EngineRerun
+import WfModel.GenEngineShape
 /-!
 # C06 — retry delays follow the wait strategy in documented order
 
@@ -15,6 +17,9 @@ import WfProofs.RunnerTerminal
   `multiplier·base`, the first incrementing delay `start + increment`.  Known finding
   C06/retry_delay_index_off_by_one; the package's own unit tests pin `next()`'s current
   behaviour, so this is recorded rather than repaired.
+* **Retries are numbered by failures** (proved, reducer): a collect re-run (stale `collect_events`
+  snapshot) is not a retry and does not restart the numbering — no step result touches the retry
+  record of its invocation, the re-run keeps it, and the failure after it is failure `attempts + 1`.
 -/
 set_option linter.unusedVariables false
 open Policy Gen.RP Engine
@@ -98,3 +103,87 @@ theorem C06_delay_index_actual (w : Wait) (n k : Nat) (el : Rat) (e : Nat) (u : 
   have hcast : decide ((k : Rat) ≥ (n : Rat)) = false := by
     simp [Rat.natCast_le_natCast]; omega
   simp [C06.engineDelay, Composed.next, stopAfterAttempt, hcast]
+
+/-! ## collect re-runs are not retries
+
+A step that calls `ctx.collect_events` on a snapshot that went stale while it ran (another worker of the
+step buffered an event meanwhile) is run again by the reducer: nothing failed, no policy is consulted, no
+delay applies.  Retries stay numbered by the FAILURES of the invocation: the re-run carries the retry
+record on, so the failure that follows it is failure `attempts + 1` and is parked for the delay the policy
+grants for that number (`C06_delayed_retry_parked`). -/
+
+/-- the source agrees in shape (re-read on every run, `harness/gen/engine_shape.py`): the reducer handles the six
+result kinds the model's `applyRes` has arms for, and none of those branches re-admits the running
+invocation (`_add_or_enqueue_event`, a fresh `EventAttempt`) or takes it out of `in_progress` itself —
+the only ways its retry record could be rebuilt while it runs -/
+theorem C06_source_shape :
+    GenEngineShape.resultDispatch =
+        ["StepWorkerResult", "StepWorkerFailed", "AddCollectedEvent", "DeleteCollectedEvent", "AddWaiter", "DeleteWaiter"] ∧
+      GenEngineShape.resultBranchesReadmitting = [] := by decide
+
+/-- no kind of step result (plain result, failure, collect add/delete, waiter add/delete), in any
+combination, changes the retry record of the invocation that produced it -/
+theorem C06_results_keep_retry_record (cfg : Cfg) (pol : Engine.Policy) (step : Nat) (tickEv : Ev) (dc : Bool)
+    (res : List Res) (acc : ResAcc) :
+    (res.foldl (applyRes cfg pol step tickEv dc) acc).exec.retryRec = acc.exec.retryRec :=
+  foldl_applyRes_retryRec cfg pol step tickEv dc res acc
+
+/-- **a collect re-run neither counts as a retry nor restarts the numbering**: whenever a result tick
+leaves the invocation in progress, its slot holds the same event with the same attempts, first-attempt
+time, last failure and recovery counts as before the tick — for every result list, state and clock -/
+theorem C06_collect_rerun_keeps_retry_number (cfg : Cfg) (pol : Engine.Policy) (step worker : Nat)
+    (tickEv : Ev) (res : List Res) (st : State) (now : Int) (exec : InProg)
+    (hs : cfg.hasStep step = true)
+    (hf : (st.workers step).inProg.find? (fun w => w.wid == worker) = some exec)
+    (hrr : (res.foldl (applyRes cfg pol step tickEv (res.any isResult))
+              { st := st, exec := exec }).stillInProgress = true) :
+    ∃ x, ((processStepResult cfg pol step worker tickEv res st now).1.workers step).inProg.find?
+            (fun w => w.wid == worker) = some x ∧ x.retryRec = exec.retryRec :=
+  processStepResult_rerun_keeps_retryRec cfg pol step worker tickEv res st now exec hs hf hrr
+
+/-- a stale `AddCollectedEvent` is what leaves it in progress, and it asks for no retry: one
+`runWorker` on the same slot, no `queueEvent`, no policy call -/
+theorem C06_stale_collect_reruns_in_place (cfg : Cfg) (pol : Engine.Policy) (step : Nat) (tickEv : Ev) (dc : Bool)
+    (acc : ResAcc) (buf : Nat) (ev : Ev) (h0 : acc.stillInProgress = false)
+    (hstale : (acc.exec.snapEvents.get buf).length <
+      ((((acc.st.workers step).collected).touch buf).get buf).length) :
+    (applyRes cfg pol step tickEv dc acc (.addCollected buf ev)).stillInProgress = true ∧
+      (applyRes cfg pol step tickEv dc acc (.addCollected buf ev)).cmds =
+        acc.cmds ++ [.runWorker step ev acc.exec.wid] := by
+  simp [applyRes, h0, hstale]
+
+/-- the failure after the re-run is failure `attempts + 1` of the record carried on: the policy is asked
+with that number and the elapsed time since the FIRST attempt, and the retry it grants is queued with
+that delay -/
+theorem C06_failure_after_rerun_counts_on (cfg : Cfg) (pol : Engine.Policy) (step : Nat) (tickEv : Ev) (dc : Bool)
+    (acc : ResAcc) (r : RetryRec) (hr : acc.exec.retryRec = r) (exc : Nat) (failedAt : Int)
+    (c : StepCfg) (hc : cfg.find step = some c) (hretry : c.hasRetry = true) (d : Nat)
+    (hp : pol step (failedAt - r.firstAt) (r.attempts + 1) exc = .retry d) :
+    (applyRes cfg pol step tickEv dc acc (.failed exc failedAt)).cmds = acc.cmds ++
+      [.queueEvent { ev := tickEv, attempts := some (r.attempts + 1), firstAt := some r.firstAt,
+                     lastExc := some exc, lastFailedAt := some failedAt, rc := r.rc } (some step) (some d)] := by
+  subst hr
+  simp only [InProg.retryRec] at hp
+  simp [applyRes, retryDecision, hc, hretry, hp, InProg.retryRec]
+
+/-! Non-vacuity: step 3 (two workers, retry policy); worker 0 runs event uid 1 on its second retry
+(`attempts = 2`) with an empty snapshot of buffer 0 while the live buffer already holds event uid 2. -/
+def C06.cfg : Cfg := { steps := [{ name := 3, accepted := [5, 6], numWorkers := 2, hasRetry := true }] }
+def C06.exec : InProg :=
+  { ev := { ty := 5, kind := .plain, uid := 1 }, wid := 0, snapEvents := [], snapWaiters := [],
+    attempts := 2, firstAt := 10, lastExc := some 7, lastFailedAt := some 11 }
+def C06.st : State :=
+  { isRunning := true,
+    workers := fun s => if s = 3 then { inProg := [C06.exec], collected := [(0, [{ ty := 6, kind := .plain, uid := 2 }])] } else {} }
+def C06.res : List Res := [.addCollected 0 { ty := 5, kind := .plain, uid := 1 }, .result none]
+
+example : ∃ x, ((processStepResult C06.cfg (fun _ _ k _ => .retry k) 3 0 C06.exec.ev C06.res C06.st 13).1.workers 3).inProg.find?
+    (fun w => w.wid == 0) = some x ∧ x.retryRec = C06.exec.retryRec :=
+  C06_collect_rerun_keeps_retry_number C06.cfg _ 3 0 C06.exec.ev C06.res C06.st 13 C06.exec (by decide) (by decide) (by decide)
+example : (processStepResult C06.cfg (fun _ _ k _ => .retry k) 3 0 C06.exec.ev C06.res C06.st 13).2 =
+    [.runWorker 3 { ty := 5, kind := .plain, uid := 1 } 0] := by decide
+/-- ... and the re-run's failure at t = 13 is failure 3: asked with (elapsed 3, attempts 3), parked for `3` -/
+example : (applyRes C06.cfg (fun _ _ k _ => .retry k) 3 C06.exec.ev false { st := C06.st, exec := C06.exec } (.failed 7 13)).cmds =
+    [.queueEvent { ev := C06.exec.ev, attempts := some 3, firstAt := some 10, lastExc := some 7, lastFailedAt := some 13 } (some 3) (some 3)] :=
+  C06_failure_after_rerun_counts_on C06.cfg _ 3 C06.exec.ev false { st := C06.st, exec := C06.exec } C06.exec.retryRec rfl 7 13
+    { name := 3, accepted := [5, 6], numWorkers := 2, hasRetry := true } (by decide) rfl 3 rfl
